@@ -400,7 +400,11 @@ def main():
         engines=[dict(name="tlc-conformance", path="/verif/check", serves_properties=sorted(CHECKS),
                       kind_free_text="explicit TLA+ specifications under /verif/specs checked with TLC, bound to NIFTy by replaying "
                                      "TLC-generated behaviours/states into the real code and by validating traces recorded from the real code "
-                                     "against trace specifications (harness under /verif/harness)")],
+                                     "against trace specifications (harness under /verif/harness)"),
+                 dict(name="tlc-conformance-extra", path="/verif/check X01", serves_properties=[],
+                      kind_free_text="specifications beyond the listed properties (DESIGN section 8): `./check X01 --tier quick` - KLSchedule.tla, the schedule "
+                                     "normalisation of nifty.cl.minimization.config.OptimizeKLConfig (repetitions, fill-up, joining of stages), every configuration "
+                                     "replayed through a config file into the real class; evidence under evidence/extra/")],
         checks=checks,
         notes="See DESIGN.md. Exit codes of every check: 0 held, 1 violation (VIOLATION line), 2 machinery failure.",
         not_applicable=na,
